@@ -139,7 +139,12 @@ def silixa_files_from(template, outdir, n, nx, stamps_utc, acq, acq_bw=None, ms=
         msf = f"{(ms[f] if ms else 0):03d}"   # milliseconds of the end stamp (several files may share one second)
         t_all = re.sub(r"<(end|max)DateTimeIndex>[^<]*<", lambda mm: f"<{mm.group(1)}DateTimeIndex>{end}.{msf}Z<", t_all)
         t_all = re.sub(r"<acquisitionTime>[^<]*</acquisitionTime>", f"<acquisitionTime>{float(acq + (acq_bw or 0))}</acquisitionTime>", t_all)
-        t_all = re.sub(r"<AcquisitionTime>[^<]*</AcquisitionTime>", f"<AcquisitionTime>{float(acq)}</AcquisitionTime>", t_all)
+        # per channel configuration: the reverse channel (number in <reverseMeasurementChannel>) gets the backward time, every other one the forward time
+        mrev = re.search(r"<reverseMeasurementChannel>(\d+)<", t_all)
+        irev = int(mrev.group(1)) - 1 if (mrev and acq_bw is not None) else -1
+        cnt = iter(range(10 ** 6))
+        t_all = re.sub(r"<AcquisitionTime>[^<]*</AcquisitionTime>",
+                       lambda mm: f"<AcquisitionTime>{float(acq_bw if next(cnt) == irev else acq)}</AcquisitionTime>", t_all)
         t_all = re.sub(r"(<probe1Temperature[^>]*>)[^<]*(</probe1Temperature>)", lambda mm: f"{mm.group(1)}{1000 + f}{mm.group(2)}", t_all)
         dgt = re.sub(r"[-:T]", "", end)
         name = (f"{prefix}UTC_{dgt[:8]}_{dgt[8:]}.{msf}.xml" if utc else f"{prefix}{dgt}{msf}.xml")
